@@ -1,6 +1,7 @@
 package c17
 
 import (
+	"github.com/caddyserver/caddy/v2/caddyconfig/caddyfile"
 	"os"
 	"path/filepath"
 	"sort"
@@ -471,6 +472,7 @@ func (*prop) Generate(rng *core.Rand, tier string, emit func(string)) {
 	// the command around the formatter (`cf`, cmdfmt.go): files with Windows line endings —
 	// also INSIDE multi-line quoted / backquoted tokens and heredocs, where the CR is token
 	// text — plus a sample of the ordinary document stream, in all four modes of `caddy fmt`
+	defer glueStreams(rng, tier, cs, emit)
 	cfR := rng.Fork()
 	nc := 600
 	if tier == "thorough" {
@@ -507,6 +509,116 @@ func (*prop) Generate(rng *core.Rand, tier string, emit func(string)) {
 		}
 		emitCf(s)
 	}
+}
+
+// glueStreams: the ops of glue.go — ev (parser tokens after {$…} substitution), fd
+// (FormattingDifference), ad (the real adapter on x and Format(x)).
+func glueStreams(rng *core.Rand, tier string, cs []string, emit func(string)) {
+	r := rng.Fork()
+	n := 1
+	if tier == "thorough" {
+		n = 10
+	}
+	inject := func(s string) string { // put 1-3 env spans at token boundaries
+		for k := 1 + r.Intn(3); k > 0; k-- {
+			var cuts []int
+			for i := 0; i < len(s); i++ {
+				if s[i] == ' ' || s[i] == '\n' || s[i] == '\t' {
+					cuts = append(cuts, i)
+				}
+			}
+			sn := r.Pick(envSnippets)
+			if len(cuts) == 0 {
+				s = s + " " + sn
+				continue
+			}
+			c := cuts[r.Intn(len(cuts))]
+			s = s[:c] + " " + sn + s[c:]
+		}
+		return s
+	}
+	for _, s := range envFixed {
+		emit("ev " + core.Hex(s))
+		emit("ad " + core.Hex(":80 {\n\t"+s+"\n}\n"))
+	}
+	for c := 0; c < 1000*n; c++ {
+		var s string
+		switch x := c % 10; {
+		case x < 4:
+			s = inject(genDoc(r, "W", 1+r.Intn(6)))
+		case x < 7:
+			s = inject(genDoc(r, "", 1+r.Intn(6)))
+		case x < 8:
+			s = r.Pick(envSnippets) + r.Pick([]string{"", " ", "\n", " x", "\n}"}) + r.Pick(envSnippets)
+		case x < 9:
+			s = inject(r.Pick(cs))
+		default:
+			s = genDoc(r, "", 1+r.Intn(6)) // no span: the pass must be the identity
+		}
+		emit("ev " + core.Hex(ownEnvOnly(s)))
+	}
+	for c := 0; c < 1000*n; c++ {
+		var s string
+		switch x := c % 10; {
+		case x < 3:
+			s = genDoc(r, "W", 1+r.Intn(8))
+		case x < 5: // formatted text: no warning
+			s = string(caddyfile.Format([]byte(genDoc(r, "", 1+r.Intn(8)))))
+		case x < 7: // … also when written with CR LF
+			s = crlf(string(caddyfile.Format([]byte(genDoc(r, "W", 1+r.Intn(8))))))
+		case x < 8:
+			s = crlf(genDoc(r, "", 1+r.Intn(6)) + r.Pick(cmdFmtMultiline))
+		case x < 9:
+			s = mutate(r, r.Pick(cs))
+		default:
+			s = soup(r)
+		}
+		emit("fd " + core.Hex(s))
+	}
+	for _, s := range cs { // every shipped adapter test input, as it is and with Windows line endings
+		emit("ad " + core.Hex(s))
+		emit("ad " + core.Hex(crlf(s)))
+	}
+	for c := 0; c < 400*n; c++ {
+		var s string
+		switch x := c % 10; {
+		case x < 6:
+			s = mutate(r, r.Pick(cs))
+		case x < 8:
+			s = inject(r.Pick(cs))
+		case x < 9:
+			s = crlf(mutate(r, r.Pick(cs)))
+		default:
+			s = ":8080 {\n" + genDoc(r, "W", 1+r.Intn(4)) + "\n}\n"
+		}
+		emit("ad " + core.Hex(s))
+	}
+}
+
+// ownEnvOnly renames every {$NAME that is not one of ours ({$HOME}, …): the model's environment is
+// envTable and nothing else, the process has more.
+func ownEnvOnly(s string) string {
+	var sb strings.Builder
+	for i := 0; i < len(s); i++ {
+		sb.WriteByte(s[i])
+		if s[i] == '$' && i > 0 && s[i-1] == '{' && !strings.HasPrefix(s[i+1:], "V17") &&
+			i+1 < len(s) && (s[i+1] >= 'A' && s[i+1] <= 'Z' || s[i+1] >= 'a' && s[i+1] <= 'z' || s[i+1] == '_') {
+			sb.WriteString("V17_")
+		}
+	}
+	return sb.String()
+}
+
+// {$NAME:default} spans: the names of glue.go's envTable, V17U is unset
+var envSnippets = []string{
+	"{$V17A}", "{$V17Q}", "{$V17NL}", "{$V17E}", "{$V17BR}", "{$V17HD}", "{$V17U}", "{$V17U:dflt}", "{$V17U:a  b}",
+	"{$V17U:\"a  b\"}", "{$V17U:a\nb}", "`{$V17A}`", "\"{$V17A}\"", "\"{$V17U:a  b}\"", "{$}", "{$V17A", "x{$V17A}y", "{${$V17A}}",
+	"{$V17U:{x}}", "{$V17A:unused  default}", "# {$V17NL}", "{$V17U:  }", "{$V17U:`a  b`}", "{$V17U:a # b}", "{$V17U:x\n\n\ny}", "{$V17U:<<E\n  t\n  E}",
+	"{$V17U:a\t\tb}", "{$ V17A}", "{$V17A }", "{$V17U::}", "{$V17E:d}", "{$V17N}", "{$V17U:{$V17A}}", "x{$V17N}",
+}
+
+var envFixed = []string{
+	"respond {$V17U:\"a  b\"}", "respond {$V17A}", "respond \"{$V17U:a  b}\"", "respond {$V17Q}", "respond {$V17U:dflt} 200", "respond {$V17N}",
 }
 
 // crlf writes every line break of s as CR LF
